@@ -248,15 +248,22 @@ def _pause_command_part(case, base, res, brng):
              for ti, T in enumerate(Q['tasks'])
              if T['name'] in ran and T['edges'] and not T.get('workflow')]
     brng.shuffle(cands)
-    for qi, ti in cands[:3]:
+    for n_c, (qi, ti) in enumerate(cands[:3]):
         P2 = copy.deepcopy(P)
         T = gdirect.all_programs(P2)[qi]['tasks'][ti]
-        clause = brng.choice(sorted(set(e['clause'] for e in T['edges'])))
-        idxs = [i for i, e in enumerate(T['edges'])
-                if e['clause'] == clause]
-        pos = brng.choice(idxs + [idxs[-1] + 1])
-        T['edges'].insert(pos, {'clause': clause, 'to': 'pause',
-                                'guard': None, 'form': 'list'})
+        if n_c == 2 and not T.get('policies') and \
+                T.get('with_items') is None:
+            # ... or through the pause-before policy of a task
+            T['policies'] = {'pause-before': True}
+            clause, pos = 'pause-before', -1
+        else:
+            clause = brng.choice(sorted(set(e['clause']
+                                            for e in T['edges'])))
+            idxs = [i for i, e in enumerate(T['edges'])
+                    if e['clause'] == clause]
+            pos = brng.choice(idxs + [idxs[-1] + 1])
+            T['edges'].insert(pos, {'clause': clause, 'to': 'pause',
+                                    'guard': None, 'form': 'list'})
         c2 = dict(case, program=P2)
         run = ec.execute(c2, auto_resume=True)
         res['executions'] += 1
